@@ -1,6 +1,7 @@
 package prop
 
 import (
+	"encoding/binary"
 	"crypto/sha256"
 	"encoding/hex"
 	"fmt"
@@ -9,6 +10,7 @@ import (
 
 	sdk "github.com/cosmos/cosmos-sdk/types"
 
+	farmtypes "mods.irisnet.org/modules/farm/types"
 	htlctypes "mods.irisnet.org/modules/htlc/types"
 	randomtypes "mods.irisnet.org/modules/random/types"
 
@@ -23,7 +25,7 @@ func init() {
 		Assume: []string{"exactly-once processing at the due height is judged item by item by the module properties' own models (C03, C06, C08, C18); C13 adds the cross-module chain, the abort recorder and the queue-object bijection", "third-party coin transfers into module escrow accounts are not generated on shared chains"},
 		Cases:  func(t string) int { return tierN(t, 6, 48) },
 		Run:    runBlockProc,
-		RequireTotals: aliveTotals(nil),
+		RequireTotals: aliveTotals(map[string]int64{"farm-pool-destroyed-in-the-block-it-falls-due": 1}),
 	})
 }
 
@@ -59,6 +61,18 @@ func runBlockProc(run *ev.Run, c int) {
 	run.Class("initial-height", fmt.Sprint(boundaryHeight(c)))
 	r := chain.r
 	rng := run.Rng
+	// observation point after every transaction: the farm pools that have an expiry-queue entry (a pool destroyed in
+	// the block it falls due must leave the queue with that transaction, not with the end of the block)
+	r.Snapshot = func(ctx sdk.Context) any {
+		q := map[string]int64{}
+		r.WalkStore(ctx, farmtypes.StoreKey, farmtypes.ActiveFarmPoolKey, func(key, _ []byte) bool {
+			if len(key) > 9 {
+				q[string(key[9:])] = int64(binary.BigEndian.Uint64(key[1:9]))
+			}
+			return false
+		})
+		return q
+	}
 	blocks := tierN(run.Tier, 160, 450)
 	burstAt := int64(0)
 	for b := 1; b <= blocks; b++ {
@@ -121,6 +135,19 @@ func runBlockProc(run *ev.Run, c int) {
 			for _, m := range tx.Msgs {
 				if tx.OK() {
 					kinds[shortMsg(sdk.MsgTypeURL(m))] = true
+				}
+				if dm, ok := m.(*farmtypes.MsgDestroyPool); ok && tx.OK() {
+					if _, poisoned := tx.Tag.(*rig.PoisonedTag); poisoned {
+						continue
+					}
+					run.Eval(1)
+					run.Count("farm-pool-destroyed", 1)
+					if pre, ok := tx.Pre.(map[string]int64); ok && pre[dm.PoolId] == br.Height {
+						run.Count("farm-pool-destroyed-in-the-block-it-falls-due", 1)
+					}
+					if post, ok := tx.Post.(map[string]int64); ok && post[dm.PoolId] != 0 {
+						run.Violation("C13:farm:destroyed-pool-keeps-its-queue-entry", map[string]any{"height": br.Height, "pool": dm.PoolId}, "farm pool %s was destroyed at height %d and still has an expiry-queue entry right after the transaction", dm.PoolId, br.Height)
+					}
 				}
 			}
 			if t, ok := tx.Tag.(*bpTag); ok {
